@@ -271,6 +271,16 @@ int main( int argc, char** argv )
             t.b[ pos ? t.n - 1 : 0 ] ^= 0x40;
             add_value( t );
         }
+    // every prefix and every suffix (length 0..16) of every service UUID: only the exact length and content is that service
+    for ( std::size_t i = 0; i != db.n_svcs; ++i )
+    {
+        const Type u = Checker::uuid_of( db.svcs[ i ] );
+        for ( std::size_t len = 0; len <= u.n; ++len )
+        {
+            add_value( Type::raw( u.b, len ) );
+            add_value( Type::raw( u.b + ( u.n - len ), len ) );
+        }
+    }
     add_value( Type::u16( 0x7777 ) );
     { const std::uint8_t u[ 16 ] = { 1, 2, 3, 4, 5, 6, 7, 8, 9, 10, 11, 12, 13, 14, 15, 16 }; add_value( Type::raw( u, 16 ) ); }
 
